@@ -1,4 +1,5 @@
 import Spine.Rob
+import Spine.RobEv
 open Spine Spine.Rob
 
 /-! Line-protocol driver of `Spine.Rob.handle` (C05: header layer + discovery layer + request-body layer).
@@ -17,7 +18,11 @@ open Spine Spine.Rob
         ENTS  = `-` or entries separated by `|`, an entry = `d,a,ENT,t,CHG,mm`  (ENT = N nil | E empty | 1.2;  CHG = -|a|r|o)
         FEATS = `-` or elements separated by `|`, an element = `d,a,ENT,FEAT,FT,role,FNS`
                 (FEAT = N | number; FT = N|k|u; FNS = `-` or pairs `fo` separated by `+`, f = function present, o = possibleOperations present)
-    Answers: `ok` | `outside` | `panic:<file>:<function>` | `bad-op`. -/
+      `shapes`   the event-shape table: `kind=DEFL` (device, entity, feature, localFeature bits) separated by `;`
+      `ev late=B src=ENT:N tree=TREE reply di=B dd=B ents=ENTS feats=FEATS`     (TREE = entities `ENT:FEATIDS` separated by
+      `ev late=B src=ENT:N tree=TREE notify part=B di=B dd=B ents=ENTS feats=FEATS`   `;`, FEATIDS = `-` or numbers separated by `.`)
+                 the events the arrival publishes: `kind,ENTITY|-,featurePresent` separated by `|`, `-` for none
+    Answers: `ok` | `outside` | `panic:<file>:<function>` | event list | `bad-op`. -/
 
 def b (s : String) : Option Bool := if s = "1" then some true else if s = "0" then some false else none
 
@@ -151,6 +156,57 @@ def showRes : Res → String
 
 def b2s (x : Bool) : String := if x then "1" else "0"
 
+def kindName : EvKind → String
+  | .deviceAdd => "deviceAdd" | .entityAdd => "entityAdd" | .entityRemove => "entityRemove"
+  | .subscriptionAdd => "subscriptionAdd" | .subscriptionRemove => "subscriptionRemove"
+  | .bindingAdd => "bindingAdd" | .bindingRemove => "bindingRemove"
+  | .dataUpdate => "dataUpdate" | .dataUpdateNM => "dataUpdateNM"
+
+def allKinds : List EvKind :=
+  [.deviceAdd, .entityAdd, .entityRemove, .subscriptionAdd, .subscriptionRemove, .bindingAdd, .bindingRemove, .dataUpdate, .dataUpdateNM]
+
+def shapeStr (s : Shape) : String := b2s s.device ++ b2s s.entity ++ b2s s.feature ++ b2s s.localFeature
+
+def showAddr (l : List Nat) : String := ".".intercalate (l.map toString)
+
+def showEv (e : Ev) : String :=
+  kindName e.kind ++ "," ++ (match e.entity with | some l => showAddr l | none => "-") ++ "," ++ b2s e.feature.isSome
+
+def showEvs (l : List Ev) : String := if l.isEmpty then "-" else "|".intercalate (l.map showEv)
+
+def treeEnt (s : String) : Option (List Nat × List Nat) :=
+  match s.splitOn ":" with
+  | [a, fs] => do
+    let a ← nats a
+    let fs ← if fs = "-" then some [] else nats fs
+    pure (a, fs)
+  | _ => none
+
+def srcOf (s : String) : Option (List Nat × Nat) :=
+  match s.splitOn ":" with
+  | [a, f] => do
+    let a ← nats a
+    let f ← f.toNat?
+    pure (a, f)
+  | _ => none
+
+def evOf (ws : List String) : Option String :=
+  match ws with
+  | late :: src :: tree :: rest => do
+    let late ← kvb "late" late
+    let src ← (kv "src" src).bind srcOf
+    let tree ← (kv "tree" tree).bind (listOf ";" treeEnt)
+    match rest with
+    | ["reply", di, dd, ents, feats] => do
+      let p ← payloadOf di dd ents feats
+      pure (showEvs (replyEvents late tree src p))
+    | ["notify", part, di, dd, ents, feats] => do
+      let part ← kvb "part" part
+      let p ← payloadOf di dd ents feats
+      pure (showEvs (if part then notifyPartialEvents tree p else notifyFullEvents tree p))
+    | _ => none
+  | _ => none
+
 structure Cfgs where
   hc : Hdr.Cfg
   dc : DCfg
@@ -164,6 +220,8 @@ def answer (c : Cfgs) (ws : List String) : String :=
     s!"fnnil={b2s c.dc.fnNil} perentry={b2s c.dc.perEntry} keep0={b2s c.dc.keep0} " ++
     s!"body={b2s c.rc.body} fba={b2s c.rc.fba} errtxt={b2s c.rc.errTxt} sft={b2s c.rc.sft} clientaddr={b2s c.rc.clientAddr}"
   | ["reset"] => "ok"
+  | ["shapes"] => ";".intercalate (allKinds.map fun k => kindName k ++ "=" ++ shapeStr (shapeOf k))
+  | "ev" :: rest => (evOf rest).getD "bad-op"
   | "dg" :: rest =>
     match dgOf rest with
     | some d => showRes (handle c.hc c.dc c.rc d)
